@@ -1018,6 +1018,8 @@ class PortSegment(CIPSegment):
             port = cls.port_segments[segment.port]
         else:
             port = segment.port
+        if not 0 < port < 15:  # 0 is reserved, 15 and up need the extended port format (not supported)
+            raise DataError(f"Invalid port: {segment.port!r}, must be a port name or a number in 1-14")
         if isinstance(segment.link_address, str):
             if segment.link_address.isnumeric():
                 link = USINT.encode(int(segment.link_address))
